@@ -1,4 +1,72 @@
-(* C18 - printing and importing restores the expression (placeholder while the
-   proofs are developed in /tmp; replaced when green). *)
-From Coq Require Import List.
-From ADC Require Import Models.Latex.
+(* C18 - printing an expression and importing the text restores the
+   expression.  Property theorems only; the model of the importer
+   (func.py:49-273) and of the printers is Models/Latex.v, the proofs are in
+   Models/LatexProofs.v.
+
+   [wf_expr e]: names over letters/digits (tensor names <> "a", symbols over
+   letters), index names = one of the 24 letters + digits, fractions not
+   nested, a sum as numerator/denominator only inside \frac; all ranks, all
+   exponents, all spins, all nesting depths of brackets / NO groups.
+   [forget cfg e]: e with every tensor class replaced by the class the
+   importer derives from the name under the configured tensor names [cfg]
+   and with bra-ket symmetry 0 (what the text cannot carry).
+   [reapply sym antisym]: Expr(.., sym_tensors=.., antisym_tensors=..). *)
+From Coq Require Import List Ascii String ZArith.
+From ADC Require Import Core.Index Core.Expr Models.Latex Models.LatexProofs.
+Import ListNotations.
+
+(* names and spins of every index list are recovered by import_indices *)
+Theorem C18_import_indices_spec :
+  forall l, forallb wf_idx l = true -> import_indices (print_idxs l) = Some l.
+Proof. exact import_indices_print. Qed.
+Print Assumptions C18_import_indices_spec.
+
+(* every tensor / symbol / operator with every exponent: the importer returns
+   the same name, indices, spins and exponent, the class chosen by name *)
+Theorem C18_import_tensor_spec :
+  forall cfg b e, wf_base b = true ->
+  import_tensor cfg false (print_pow (print_base b) e) = Some (OPow (forget_base cfg b) e).
+Proof. exact import_tensor_print. Qed.
+Print Assumptions C18_import_tensor_spec.
+
+(* importing the printed text of any expression of the fragment, for any order
+   of terms and factors and any configured tensor names *)
+Theorem C18_import_print_roundtrip :
+  forall cfg e, wf_expr e = true ->
+  import_model cfg false (print_model e) = Some (forget cfg e).
+Proof. exact import_print_roundtrip. Qed.
+Print Assumptions C18_import_print_roundtrip.
+
+(* printing the imported expression gives the same text *)
+Theorem C18_print_import_print :
+  forall cfg e e', wf_expr e = true ->
+  import_model cfg false (print_model e) = Some e' -> print_model e' = print_model e.
+Proof. exact print_import_print. Qed.
+Print Assumptions C18_print_import_print.
+
+(* the whole property under the side condition that the tensor classes are
+   those the importer derives from the names ([consistent]) *)
+Theorem C18_import_print_reapply_roundtrip :
+  forall cfg sym antisym e, wf_expr e = true -> consistent cfg sym antisym e = true ->
+  exists e', import_model cfg false (print_model e) = Some e' /\
+             reapply sym antisym e' = e /\ print_model e' = print_model e.
+Proof. exact import_print_reapply_roundtrip. Qed.
+Print Assumptions C18_import_print_reapply_roundtrip.
+
+(* without the side condition the kind clause is false: the symbolic
+   denominator D^{i}_{a} (SymmetricTensor, bra-ket antisymmetric) comes back
+   as AntiSymmetricTensor *)
+Theorem C18_import_kind_D_refuted :
+  wf_expr D_witness = true /\
+  exists e', import_model default_names false (print_model D_witness) = Some e' /\
+             print_model e' = print_model D_witness /\
+             expr_kinds (reapply [] [L "D"] e') = [(L "D", KAnti, (-1)%Z)] /\
+             expr_kinds D_witness = [(L "D", KSym, (-1)%Z)] /\
+             reapply [] [L "D"] e' <> D_witness.
+Proof. exact import_kind_D_refuted. Qed.
+Print Assumptions C18_import_kind_D_refuted.
+
+(* the hypotheses are satisfiable on a non-trivial expression *)
+Example C18_hypotheses_satisfiable :
+  wf_expr example_expr = true /\ consistent default_names [L "V"; L "f"] [] example_expr = true.
+Proof. exact example_hypotheses. Qed.
